@@ -324,6 +324,12 @@ def lookup_order(prog, chk):
     nexts = R.calls_to(gv, lambda c: c.decl_path == "std::iter::Iterator::next")
     ok_rev = len(revs) == 1 and "svgdx::context::Scope" in revs[0][2].self_ty and _derives_from_field(gv, revs[0][1]["args"][0], ".scope_stack")
     ok_next = len(nexts) == 1 and "std::iter::Rev<std::slice::Iter<" in nexts[0][2].self_ty
+    # the same walk written with an adapter: `.iter().rev().find_map(|scope| scope.vars.get(name))` - find_map / find
+    # over the reversed iterator stops at the first (innermost) hit by definition
+    finds = R.calls_to(gv, lambda c: c.decl_path in ("std::iter::Iterator::find_map", "std::iter::Iterator::find"))
+    by_adapter = not nexts and len(finds) == 1 and "std::iter::Rev<std::slice::Iter<" in finds[0][2].self_ty and len(revs) == 1 and R.origin(gv, finds[0][1]["args"][0], carriers={})[:2] == ("call", revs[0][0])
+    if by_adapter:
+        ok_next = True
     chk.ob(
         ok_rev and ok_next,
         "A15.lookup-innermost-first",
@@ -345,7 +351,7 @@ def lookup_order(prog, chk):
                 reg = gv.reach(some_t)
                 first_hit = nexts[0][0] not in reg and any(gv.term(x)["k"] == "ret" for x in reg)
     chk.ob(
-        first_hit,
+        first_hit or (ok_rev and by_adapter),
         "A15.lookup-innermost-first",
         "get_var:first-hit",
         gv.where(),
